@@ -299,7 +299,7 @@ def finalize(res, tier):
 
 
 # ------------------------------------------------------------------ real process, real terminal
-def pty_session(year, forms, path, answer_fn, fault=None, timeout=120):
+def pty_session(year, forms, path, answer_fn, fault=None, timeout=1200):
     """`python -m habutax solve ... --prompt-missing --writeback-input` as a child
     process on a pseudo-terminal.  fault = ('sigint'|'eof', k): at the k-th
     question a real Ctrl-C (the terminal raises SIGINT) or Ctrl-D (end of
